@@ -199,3 +199,6 @@ func localName(fn *ssa.Function, name string) string {
 	}
 	return name
 }
+
+// LocalName is the frozen name of a local variable of fn (see the file comment).
+func LocalName(fn *ssa.Function, name string) string { return localName(fn, name) }
